@@ -236,6 +236,7 @@ func RunC01(run *core.Run, backend *SQLBackend, queries []Query, b Bounds) {
 			ensureKinds(km, kindIDs, dd)
 		}
 		var evals, agree, outside, sqlErr, refUnknown, refErr, nonEmpty int64
+		unexplained := 0
 		firstOutside := ""
 		judge := func(g *gm.Graph) bool {
 			evals++
@@ -274,7 +275,21 @@ func RunC01(run *core.Run, backend *SQLBackend, queries []Query, b Bounds) {
 			if len(ref.Rows.Rows) > 0 {
 				nonEmpty++
 			}
-			classes, detail := JudgeC01(m, q, g, ref, o.Rows)
+			var classes []string
+			var detail string
+			if unexplained >= 3 {
+				// this query already has three disagreements no set of recorded deviations explains: its class is settled
+				// (it depends on the query, not on the graph), the expensive search for an explanation is skipped
+				if detail = CompareToReference(ref, o.Rows); detail != "" {
+					classes = []string{featureClass("rows-differ", q)}
+					run.Add("disagreements_not_searched_after_three_unexplained", 1)
+				}
+			} else {
+				classes, detail = JudgeC01(m, q, g, ref, o.Rows)
+				if len(classes) == 1 && classes[0] == featureClass("rows-differ", q) {
+					unexplained++
+				}
+			}
 			if len(classes) == 0 {
 				agree++
 				return true
